@@ -165,7 +165,10 @@ def check_table(ck, module, cfg, table, name, signature, chunk=20000, timeout=90
         for m in _re_bad.finditer(r.out):
             row = json.loads(chunks[i][int(m.group(1)) - 1])
             for c in re.findall(r'"([^"]+)"', m.group(2)):
-                (prop if c.startswith(ck.pid + "_") else conf).append((c, row, i))
+                if c.startswith(ck.pid + "_"):
+                    prop.append((c, row, i))
+                elif c.startswith("Conf_"):       # clauses of another property evaluated by the same table spec are that property's business
+                    conf.append((c, row, i))
     seen = {}
     for c, row, i in prop:
         sig = signature(c, row)
